@@ -105,6 +105,9 @@ def check_engine(rep, fb, ex, eq, callgraph):
         anc = sorted(t for t in lt if t.startswith('source-ancestry'))
         rep.check(len(anc) == 2, 'R01.13', eng + '|ancestor pre-emption', locstr(lsite), 'a transition whose source is an ancestor or descendant of an already selected transition\'s source is %s (terms: %s); a targetless transition has an empty exit set, so exit-set overlap alone lets the ancestor\'s transition fire as well' % (
             'recorded as conflicting' if len(anc) == 2 else 'NOT recorded as conflicting', sorted(lt)))
+        # ... and the ordered view it walks keeps every state (shared with C02 R02.9)
+        from .C02 import comparator_keys
+        comparator_keys(rep, fb, 'R01.13')
     # R01.16 history default
     hn, hd = _skel.history_default_condition(f)
     if hn is None:
